@@ -102,8 +102,8 @@ TABLE = [
     ("alg7.rev3", "PasswordAlgorithm::recover_user_password_r4", "conds", r"^Ge\(arg1\.revision,3\)$", 3, "Algorithm 3(c),(d) / 7(b): the 50 MD5 rounds, the key length and the 19 RC4 passes each depend on revision 3 or greater"),
     ("alg7.pad-32", "PasswordAlgorithm::recover_user_password_r4", "calls", r"^update\(.+, index\(.+,RangeTo::RangeTo\{min\(len\(.+\),32\)\}\)\)$", 1, "Algorithm 3(a)/7(a): the first min(len, 32) bytes of the owner password are hashed"),
     ("alg7.pad-rest", "PasswordAlgorithm::recover_user_password_r4", "calls", r"^update\(.+, index\(.+RangeTo::RangeTo\{Sub\(32,min\(len\(.+\),32\)\)\}\)\)$", 1, "Algorithm 3(a)/7(a): followed by the first 32 - len bytes of the padding string"),
-    ("pkcs5.unpad-range", "Pkcs5::unpad", "conds", r"^Gt\(.+ as usize,len\(arg1\)\)$", 1, "RFC 8018 / ISO 32000-1 7.6.2: the padding length n is valid for 1 <= n <= block size (a whole block of padding is legal): rejected only if n > block size"),
-    ("pkcs5.unpad-zero", "Pkcs5::unpad", "conds", r"^Eq\(.+,0\)$", 1, "a padding length of 0 is invalid"),
+    ("pkcs5.unpad-range", "<Pkcs5 as RawPadding>::raw_unpad", "conds", r"^Gt\(.+ as usize,len\((arg1|\$\d+)\)\)$", 1, "RFC 8018 / ISO 32000-1 7.6.2: the padding length n is valid for 1 <= n <= block size (a whole block of padding is legal): rejected only if n > block size"),
+    ("pkcs5.unpad-zero", "<Pkcs5 as RawPadding>::raw_unpad", "conds", r"^Eq\(.+,0\)$", 1, "a padding length of 0 is invalid"),
     ("alg5.pad", "PasswordAlgorithm::compute_hashed_user_password_r3_r4", "calls", r"^update\(.+, encryption::algorithms::PAD_BYTES\)$", 1, "Algorithm 5(b): MD5 of the padding string"),
     ("alg5.rc4-19-up", "PasswordAlgorithm::compute_hashed_user_password_r3_r4", "ranges", r"^new\(1,19\)$", 1, "Algorithm 5(e): RC4 with keys XOR 1 to 19"),
     ("alg1.objnum-3le", "<Rc4CryptFilter as CryptFilter>::compute_key", "calls", r"^index\(to_le_bytes\(arg3\.0\), RangeTo::RangeTo\{3\}\)$", 1, "Algorithm 1(b): low-order 3 bytes of the object number, low-order byte first"),
